@@ -51,6 +51,7 @@ from pyimpspec.typing.helpers import (
 )
 from pyimpspec.data import DataSet
 from pyimpspec.analysis.utility import (
+    _calculate_pseudo_chisqr,
     _calculate_residuals,
     get_default_num_procs,
 )
@@ -428,7 +429,10 @@ def perform_zhit(
         frequencies=f,
         impedances=Z_fit,
         residuals=residuals,
-        pseudo_chisqr=pseudo_chisqr,
+        pseudo_chisqr=_calculate_pseudo_chisqr(
+            Z_exp=data.get_impedances(),
+            Z_fit=Z_fit,
+        ),
         smoothing=smoothing,
         interpolation=interpolation,
         window=window,
